@@ -1,4 +1,5 @@
 """C21 — Reported diagnostics are well-formed and complete for syntax errors (engine K + M)."""
+import json
 import re
 import time
 
@@ -171,6 +172,58 @@ def syntax_errors(out, mc, pending):
         ob.status = "pass"
 
 
+def no_duplicates(out, mc, pending):
+    """the last clause of C21: the list of a file never contains exact duplicates.  Decided at the only place
+    diagnostics enter the list (DiagnosticContext::add_diagnostic): a push is guarded by a membership test of the
+    very Diagnostic being pushed (slice::contains answered false, or a HashSet::insert of it answered true)."""
+    import c20
+    fns = mc.fns("emmylua_code_analysis", r"is_checker_enable_by_code|fn .*checker::<impl[^>]*>::(add_diagnostic|get_severity|should_report_diagnostic)\(")
+    fn = [f for f in fns if re.search(r"checker::<impl[^>]*>::add_diagnostic$", f.name)]
+    ob = out.add(Obligation("duplicates/push_guarded_by_membership_test", "M",
+                            "on every path of add_diagnostic that pushes a Diagnostic, the same Diagnostic value was first looked up in the list it is pushed to "
+                            "(contains == false on that path, or a set insert == true): an exact duplicate is never appended",
+                            {"function": "DiagnosticContext::add_diagnostic", "paths": "all"}, [f.name for f in fn]))
+    if len(fn) != 1:
+        ob.status = "inconclusive"
+        ob.detail = "add_diagnostic: %d candidates" % len(fn)
+        return
+    ex = symex.Executor(fns)
+    ex.inline = [r"DiagnosticContext::<'_>::get_severity$"]
+    fails = []
+    pushes_seen = 0
+    for p in ex.run(fn[0]):
+        if p.kind != "return":
+            fails.append("path kind %s" % p.kind)
+            continue
+        evs = p.trace
+        for i, e in enumerate(evs):
+            if not re.search(r"Vec::push$", e.get("short", "")):
+                continue
+            pushes_seen += 1
+            pushed = e["akeys"][1]
+            ok = False
+            for g in evs[:i]:
+                sn = g.get("short", g["callee"])
+                if re.search(r"contains$", sn) and len(g["akeys"]) > 1 and isinstance(g["result"], symex.BoolV):
+                    same = pushed in g["akeys"][1] or g["akeys"][1].lstrip("&") in pushed
+                    if same and mc.check(list(p.pc) + [g["result"].term], "dup")[0] == "unsat":
+                        ok = True
+                if re.search(r"HashSet::insert$", sn) and isinstance(g["result"], symex.BoolV):
+                    if mc.check(list(p.pc) + [z3.Not(g["result"].term)], "dup")[0] == "unsat":
+                        ok = True
+            if not ok:
+                fails.append("a Diagnostic is pushed without asking whether the list already holds an equal one")
+    ob.witness = pushes_seen > 0
+    if pushes_seen == 0:
+        fails.append("no pushing path")
+    if fails:
+        ob.status = "pending"
+        ob.detail = "; ".join(sorted(set(fails)))[:400]
+        pending.append((ob, fails))
+    else:
+        ob.status = "pass"
+
+
 TEXTS = [
     ("syntax_error", "local = 1\n"),
     ("doc_error", "---@class\nlocal x = 1\n"),
@@ -182,6 +235,9 @@ TEXTS = [
     ("error_at_end_of_file", "local x = ("),
     ("crlf_file", "local a = 1\r\nlocal = 2\r\n"),
     ("cjk_line", "local 名 = = 1\n"),
+    ("double_assign", "x = = 1\n"),
+    ("token_soup", "x = = = )) local function end end if then\n"),
+    ("truncated_call", "print(a, b,\n"),
 ]
 
 
@@ -200,6 +256,10 @@ def native_battery():
         for d in diags:
             if d["start"] > d["end"]:
                 problems.append("diagnostic with start after end: %s" % d)
+        keys = [json.dumps(d, sort_keys=True) for d in diags]
+        for k in sorted(set(keys)):
+            if keys.count(k) > 1:
+                problems.append("exact duplicate diagnostic (%d times): %s" % (keys.count(k), k[:160]))
         for pe in res.get("parse_errors", []):
             code = "syntax-error" if pe["kind"] == "SyntaxError" else "doc-syntax-error"
             if not any(d["code"] == code and d["start"] == pe["start"] and d["end"] == pe["end"] for d in diags):
@@ -238,7 +298,7 @@ def run(out):
     out.functions = ["LuaDocument::to_lsp_range / to_lsp_position / to_rowan_range", "DiagnosticContext::translate_range", "SyntaxErrorChecker::check",
                      "DiagnosticContext::add_diagnostic + get_severity"]
     out.bounds = {"M": "all paths of translate_range; SyntaxErrorChecker::check with <= 2 parse errors (token walk cut)"}
-    out.outside = ["message placeholder substitution (the i18n shim is identity)", "ranges computed by the individual checkers", "duplicate-freedom of the list",
+    out.outside = ["message placeholder substitution (the i18n shim is identity)", "ranges computed by the individual checkers", "diagnostics that reach a client by another way than DiagnosticContext::add_diagnostic",
                    "literal checks of the token walk in SyntaxErrorChecker (second loop)", "known code names / severity presence are covered by C20's gating obligation"]
     out.assumptions = ["LuaDocument::get_line_col is the conversion verified by the K harnesses of this property (to_lsp_range forwards to it)",
                        "rustc MIR semantics; unwinding edges not followed"]
@@ -248,6 +308,7 @@ def run(out):
     try:
         translate(out, mc, pending)
         syntax_errors(out, mc, pending)
+        no_duplicates(out, mc, pending)
         # construction of the Diagnostic (range = translated range or 0:0, code name, severity): shared with C20
         import c20
         pending += c20.gating(out, mc)
